@@ -45,6 +45,7 @@ type c13case struct {
 	db, user, pass, quota, name string
 	viaDial                     bool
 	chain                       []ref.Exception
+	comp                        compMode
 	splitAt                     []int           // hello-split: cut positions as per-mille of the hello's length
 	gaps                        []time.Duration // hello-split: pause before each later piece
 }
@@ -76,6 +77,7 @@ func TestC13Handshake(t *testing.T) {
 			db:          credStr.Draw(rt, "db"), user: credStr.Draw(rt, "user"), pass: credStr.Draw(rt, "pass"), quota: credStr.Draw(rt, "quota"),
 			name:    rapid.SampledFrom([]string{"", "myapp", "x y"}).Draw(rt, "client-name"),
 			viaDial: rapid.Bool().Draw(rt, "via-dial"),
+			comp:    drawComp(rt),
 		}
 		effRead := c.readTimeout
 		if effRead == 0 {
@@ -186,7 +188,7 @@ func runC13(rt *rapid.T, c c13case, st *stats.Collector) {
 	}
 	e.srv.Start()
 
-	opt := baseOptions(c.clientRev, compModes[0])
+	opt := baseOptions(c.clientRev, c.comp)
 	opt.Database, opt.User, opt.Password, opt.QuotaKey, opt.ClientName = c.db, c.user, c.pass, c.quota, c.name
 	opt.ReadTimeout, opt.HandshakeTimeout = c.readTimeout, c.handshakeTO
 	effHS := c.handshakeTO
@@ -323,8 +325,35 @@ func runC13(rt *rapid.T, c c13case, st *stats.Collector) {
 			rt.Fatalf("follow-up query packet %+v (want id q-1, client-info revision %d)", qq, N)
 		}
 	})
+	// An INSERT (blocks are encoded per revision too, compressed or not): what the server
+	// receives parses at N and carries the rows.
+	insCol := ref.Column{Name: "v", T: ref.Fixed("UInt8", 1)}
+	e.srv.Steps = append(e.srv.Steps,
+		itemStep(Item{Kind: "data", Block: &ref.Block{Columns: []ref.Column{insCol}}}, simnet.AfterQuery(2), c.comp.Method, nil),
+		itemStep(Item{Kind: "eos"}, simnet.AfterInputEnd, 0, nil))
+	ins := proto.ColUInt8{1, 2, 3}
+	if err := doBounded(rt, e, client, context.Background(), ch.Query{Body: "INSERT INTO t VALUES", Input: proto.Input{{Name: "v", Data: &ins}}}, time.Minute, fmt.Sprintf("follow-up INSERT at negotiated revision %d (%s)", N, c.comp.Name)); err != nil {
+		rt.Fatalf("follow-up INSERT at negotiated revision %d (client %d, server %d, %s): %v", N, c.clientRev, c.serverRev, c.comp.Name, err)
+	}
+	e.srv.WithStream(func(cs *ref.ClientStream) {
+		if cs.Err != nil || cs.Pending() != 0 {
+			rt.Fatalf("follow-up INSERT bytes do not parse at the negotiated revision %d with %s: %v (pending %d)", N, c.comp.Name, cs.Err, cs.Pending())
+		}
+		var rows int
+		for _, p := range cs.DataSinceQuery() {
+			if len(p.Block.Columns) == 1 {
+				rows += p.Block.Rows()
+				if len(p.Block.Columns[0].Rows) != 3 || p.Block.Columns[0].Rows[2].([]byte)[0] != 3 {
+					rt.Fatalf("follow-up INSERT block decoded at revision %d holds %v", N, p.Block.Columns[0].Rows)
+				}
+			}
+		}
+		if rows != 3 {
+			rt.Fatalf("follow-up INSERT: the server parsed %d rows at revision %d, 3 were sent", rows, N)
+		}
+	})
 	// Parameters are refused iff N < 54459.
-	e.srv.Steps = append(e.srv.Steps, itemStep(Item{Kind: "eos"}, simnet.AfterQuery(2), 0, nil))
+	e.srv.Steps = append(e.srv.Steps, itemStep(Item{Kind: "eos"}, simnet.AfterQuery(3), 0, nil))
 	before := e.conn.NumWrites()
 	perr := doBounded(rt, e, client, context.Background(), ch.Query{Body: "SELECT {a:Int8}", Parameters: []proto.Parameter{{Key: "a", Value: "1"}}}, time.Minute, "query with parameters")
 	if N < ref.RevParameters {
